@@ -1,6 +1,6 @@
 SPECIFICATION Spec
 CONSTANTS
-  Names = {"docker", "my.plug_in-2", "ORG", "x", "github.com"}
+  Names = {"docker", "my.plug_in-2", "ORG", "x", "github.com", "Buildkite-Plugins"}
   RefSegs = {"v1.2.3", "main", "feature", "0"}
   MaxSegs = 4
   MaxRef = 2
